@@ -433,6 +433,7 @@ func writeEvidence(prop, tier string, seed uint64, plan propPlan, a *agg, wall f
 		"race_detector_runs":    a.raceRuns,
 		"simulated_steps":       a.steps,
 		"simulated_time_note":   "the library reads no clock; simulated time is the global step counter (one step = one scheduler decision)",
+		"seeds_per_hour_note":   "every run executes one seed derived from (VERIF_SEED, property, tier, run index); seeds per hour = runs per hour",
 		"runs_per_hour":         int(float64(a.evaluations) / wall * 3600),
 		"faults_fired":          faults,
 		"faults_not_injected":   plan.NotInjected,
